@@ -1753,7 +1753,7 @@ Section Parse.
     unfold lookup_toks, hdr_toks in *.
     cbn [l_subs l_type l_flags subs_toks app] in *.
     rewrite <- !app_assoc in *. cbn [app] in *.
-    destruct s as [c|cov delta|cov subst|cov repl|cov alts|cov repl|cov adj|cov adj]; try discriminate;
+    destruct s as [h|c|cov delta|cov subst|cov repl|cov alts|cov repl|cov adj|cov adj]; try discriminate;
       cbn [sub_type] in *; cbn [parse_loop]; unfold bind at 1; cbn [read ttyp tval];
       [ change (list_eqb (k_GSUB ++ digits 1) k_GSUB1) with true
       | change (list_eqb (k_GSUB ++ digits 1) k_GSUB1) with true
